@@ -5,6 +5,7 @@
 //   CFG <slot> <budget> <mode> <state> <flags>   configure stream slot (sink fault as an explicit op)
 //   OP <name> <seed> <p0> <p1> <slot> <fault> <a> <b> [value-class]
 //        fault: none | alloc k | allocfrom k | alloceach | sink budget mode | sinkeach | cold k persistent
+//   PAIR <nameA> <seedA> <nameB> <seedB> <reps>     two threads at once (concurrent build only)
 //   EXITOP <name> <seed>                         queue the op to run during static destruction (after main returns)
 //   MODE <0..3>                                  set the floating-point rounding mode for the rest of the run
 //   REP <name> <seed> <n> <vary>                 the same op n times, seed + i*vary (endurance, fault-free)
@@ -36,6 +37,7 @@ void register_ops_inline(const OpEntry*, int) {}
 
 }  // namespace vrt
 
+#ifndef VRT_CONCURRENT
 // ------------------------------------------------------------------------- allocation seam
 static void* vrt_alloc(std::size_t n, bool nothrow) {
   vrt::AllocState& a = vrt::g_alloc;
@@ -93,11 +95,14 @@ void operator delete[](void* p, std::size_t, std::align_val_t) noexcept { std::f
 void operator delete(void* p, std::align_val_t, const std::nothrow_t&) noexcept { std::free(p); }
 void operator delete[](void* p, std::align_val_t, const std::nothrow_t&) noexcept { std::free(p); }
 
+#endif  // VRT_CONCURRENT
+
 // sanitizer hits are classified by exit code / stderr; leaks are not a C20 matter
 extern "C" __attribute__((used)) const char* __asan_default_options() {
   return "exitcode=77:detect_leaks=0:abort_on_error=0:allocator_may_return_null=1";
 }
 extern "C" __attribute__((used)) const char* __ubsan_default_options() { return "print_stacktrace=0:halt_on_error=1"; }
+extern "C" __attribute__((used)) const char* __tsan_default_options() { return "halt_on_error=1:exitcode=66:report_thread_leaks=0:second_deadlock_stack=0"; }
 
 // ------------------------------------------------------------------------- executor
 namespace {
@@ -161,7 +166,9 @@ Outcome run_once_here(const OpEntry& e, Ctx& c, std::uint64_t seed, long p0, lon
     o.cls = 2;
     o.type = "unknown";
   }
+#ifndef VRT_CONCURRENT
   vrt::g_alloc.counting = false;
+#endif
   o.h = c.h;
   o.len = c.result_len;
   o.invalid_enum = c.invalid_enum;
@@ -441,6 +448,40 @@ int main(int argc, char** argv) {
       say("B %ld %ld CFG\n", g_run, g_opidx);
       reset_slot(((slot % vrt::kStreamSlots) + vrt::kStreamSlots) % vrt::kStreamSlots, budget, mode % 3, state % 8, flags);
       say("R %ld %ld ok n=0 fired=0 h0=0 len=0 nf=0\n", g_run, g_opidx);
+      ++g_opidx;
+    } else if (cmd == "PAIR") {
+      // true concurrency (ThreadSanitizer build): two threads, started together and joined together, each makes its
+      // own call `reps` times on its own operands.  TSan's happens-before analysis reports conflicting unsynchronised
+      // accesses whatever the actual interleaving was, so the verdict does not depend on timing.
+      std::string na, nb;
+      unsigned long long sa = 0, sb = 0;
+      long reps = 1;
+      is >> na >> sa >> nb >> sb >> reps;
+      auto ia = byname.find(na), ib = byname.find(nb);
+      if (ia == byname.end() || ib == byname.end()) {
+        say("U %ld %ld %s\n", g_run, g_opidx, (ia == byname.end() ? na : nb).c_str());
+      } else {
+        say("B %ld %ld %s\n", g_run, g_opidx, na.c_str());
+        g_phase = "pair";
+        Outcome oa, ob;
+        auto body = [reps](const OpEntry* e, unsigned long long seed, Outcome* out) {
+          Ctx c;
+          for (long i = 0; i < reps; ++i) {
+            Scratch s;
+            *out = run_once_here(*e, c, seed + static_cast<unsigned long long>(i) * 0x9E3779B97F4A7C15ULL, -1, -1, &s.os);
+            if (out->cls == 2) break;
+          }
+        };
+        std::thread ta(body, ia->second, sa, &oa);
+        std::thread tb(body, ib->second, sb, &ob);
+        ta.join();
+        tb.join();
+        st.execs += 2 * reps;
+        if (oa.cls == 2) check_outcome(*ia->second, oa, false, "pair", st);
+        if (ob.cls == 2) check_outcome(*ib->second, ob, false, "pair", st);
+        g_phase = "-";
+        say("R %ld %ld ok n=0 fired=0 h0=%016llx len=%ld nf=0\n", g_run, g_opidx, static_cast<unsigned long long>(oa.h ^ ob.h), oa.len + ob.len);
+      }
       ++g_opidx;
     } else if (cmd == "EXITOP") {
       std::string name;
